@@ -473,8 +473,9 @@ impl<'lexer> Lexer<'lexer> {
     match pair {
       (Some('/'), Some('/')) => {
         self.position += 2;
+        // a line comment ends at any vertical space (grammar rule 62), not only at the line feed
         while let Some(ch) = self.char_at(0) {
-          if ch == '\n' {
+          if is_vertical_space(ch) {
             return;
           }
           self.position += 1;
@@ -980,7 +981,7 @@ impl<'lexer> Lexer<'lexer> {
   }
 
   /// Returns the offset just after the comment that starts at the specified offset.
-  /// A line comment ends before the line feed, an unterminated comment at the end of input.
+  /// A line comment ends before the vertical space, an unterminated comment at the end of input.
   fn comment_end(&self, mut offset: usize) -> usize {
     let block = self.char_at(offset + 1) == Some('*');
     offset += 2;
@@ -988,7 +989,7 @@ impl<'lexer> Lexer<'lexer> {
       if block && ch == '*' && self.char_at(offset + 1) == Some('/') {
         return offset + 2;
       }
-      if !block && ch == '\n' {
+      if !block && is_vertical_space(ch) {
         return offset;
       }
       offset += 1;
